@@ -13,7 +13,9 @@ from __future__ import annotations
 
 import datetime
 import json
+import math
 import struct
+from fractions import Fraction
 
 import common
 from common import Channel
@@ -143,11 +145,24 @@ DUR_ROUTES = ("utils", "filter", "flatten", "as_python")
 
 
 def dur_argument(whole: int, us: int, form: str):
+    dec = f"{whole}.{us:06d}"
     if form == "float":
-        return float(f"{whole}.{us:06d}")       # nearest double to the decimal value
+        return float(dec)                        # nearest double to the decimal value
     if form == "str":
-        return f"{whole}.{us:06d}"
+        return dec
+    # legal but unusual spellings of the same number (float() reads them all to the same double)
+    if form == "str-short":
+        return dec.rstrip("0").rstrip(".") or "0"
+    if form == "str-padded":
+        return f" +00{dec} "
+    if form == "str-exp":
+        return f"{whole}{us:06d}e-6" if whole else f"{us}e-6"
+    if form == "int" and us == 0:
+        return whole
     return datetime.timedelta(seconds=whole, microseconds=us)
+
+
+STR_FORMS = ("str", "str-short", "str-padded", "str-exp")
 
 
 def render_duration(whole: int, us: int, form: str, route: str) -> str:
@@ -225,7 +240,7 @@ def shrink_isodur(case):
 
 
 WHOLES = [0, 1, 5, 9, 10, 59, 60, 61, 599, 3599, 3600, 3601, 3659, 35999, 86399, 86400, 359999, 360000,
-          31535999, 31536000, 2 ** 31 - 1, 2 ** 31, 3155760000]
+          31535999, 31536000, 2 ** 31 - 1, 2 ** 31, 2 ** 31 + 1, 3155760000, 2 ** 32 - 1]
 US_EDGES = [0, 1, 499, 500, 501, 999, 1000, 1499, 1500, 1501, 100000, 499999, 500000, 500500, 560000,
             7300, 7800, 998499, 998500, 999499, 999500, 999501, 999600, 999999]
 EXHAUSTIVE_WHOLES = [0, 59, 3599, 86399, 31535999]
@@ -237,6 +252,12 @@ def gen_isodur(rng, n):
     for w in WHOLES:                      # every edge fraction against every representative whole part
         for i, u in enumerate(US_EDGES):
             out.append((w, u, forms[(i + w) % 3], "utils"))
+    # zero and the rounding / carry edges in every form and spelling (falsy values, unusual spellings)
+    for w in (0, 5, 59, 3599):
+        for u in (0, 500, 1500, 999499, 999500, 999999):
+            for f in ("float", "timedelta", "int") + STR_FORMS:
+                if f != "int" or u == 0:
+                    out.append((w, u, f, "utils"))
     while len(out) < n:
         k = rng.random()
         if k < .35:
@@ -257,6 +278,10 @@ def gen_isodur(rng, n):
         else:
             us = rng.randrange(0, 1000000)
         form = rng.choice(forms)
+        if form == "str" and rng.random() < .4:
+            form = rng.choice(STR_FORMS)
+        if us == 0 and rng.random() < .3:
+            form = "int"
         route = rng.choice(DUR_ROUTES if form == "timedelta" else DUR_ROUTES[:2])
         out.append((min(whole, TWO32 - 1), us, form, route))
     return out
@@ -363,12 +388,93 @@ class _GridAdder:
         self.ks.add_grid(self.row, key[1], key)
 
 
+def bits_double(b: int) -> float:
+    return struct.unpack("<d", struct.pack("<Q", b))[0]
+
+
+RAW_SLACK = Fraction(1, 1000)     # 1 ns, in microseconds: far above double noise, far below any rounding step
+
+
+def run_rawfloat(bits: int):
+    """toIsoDuration of an arbitrary double (not microsecond-granular): the value is the double itself"""
+    x = bits_double(bits)
+    v = Fraction(x) * 1000000
+    dt = impl()[0]
+    try:
+        text = dt.toIsoDuration(x)
+    except Exception as e:  # noqa: BLE001
+        return None, [f"toIsoDuration({x!r}) raised {type(e).__name__}: {e}"]
+    fails = []
+    if not isinstance(text, str):
+        return text, [f"toIsoDuration did not return text: {text!r}"]
+    try:
+        f = orc.read_duration(text)
+        if f.get("minutes", 0) >= 60 or f.get("seconds", 0) >= 60:
+            fails.append(f"minutes / seconds field of {text!r} is not below 60")
+        val = orc.duration_micros(f)
+        if abs(val - v) > 500 + RAW_SLACK:
+            fails.append(f"text {text!r} is more than 0.5 ms from {x!r} s")
+    except orc.Lexical as e:
+        fails.append(f"text {text!r} is not a valid xs:duration ({e})")
+    value, err = parse_real(text)
+    if err is not None or not isinstance(value, datetime.timedelta):
+        fails.append(f"from_isodatetime({text!r}) gave {err or value!r}")
+    elif abs(value // US - v) > 500 + RAW_SLACK:
+        fails.append(f"from_isodatetime({text!r}) = {value // US} us, more than 500 us from {x!r} s")
+    return text, fails
+
+
+RAW_FLOATS = [0.1, 0.2 + 0.1, 1 / 3, 2 / 3, 0.0005, 0.0015, 0.0025, 1e-7, 4.9995, 0.9995, 59.9995, 3599.9995,
+              1e-9, 5e-324, 2.0 ** -20, 123456.789, math.pi, 1e9 + 0.0005, 2.0 ** 32 - 0.5, 2.0 ** 31 + 0.9996,
+              0.9994999999999999, 0.9995000000000001, 0.49999999999999994, 1 - 2.0 ** -53, 5.0, 1e-300,
+              0.29999999999999993, 86399.9995, 2.0 ** 53 / 2 ** 22 + 0.25, 1.0005, 1.9999999999999998]
+
+
+def eval_rawfloat(rng, n, ch: Channel, keys):
+    xs = list(RAW_FLOATS)
+    for x in list(xs):                              # the doubles next to each one
+        xs += [math.nextafter(x, 0.0), math.nextafter(x, math.inf)]
+    while len(xs) < n:
+        k = rng.random()
+        if k < .4:
+            xs.append(rng.random() * 10 ** rng.uniform(-3, 9))
+        elif k < .6:
+            xs.append(rng.randrange(0, 10 ** 6) / rng.choice([3, 7, 9, 11, 13, 1001]))
+        else:                                       # doubles around a rounding half-way point
+            x = (rng.randrange(0, 10 ** rng.randrange(1, 9)) + 0.5) / 1000
+            for _ in range(rng.randrange(0, 3)):
+                x = math.nextafter(x, rng.choice([0.0, math.inf]))
+            xs.append(x)
+    xs = [x for x in xs if 0 <= x < TWO32]
+    try:
+        model = common.run_driver([f"isodurf {double_bits(x)}" for x in xs])
+    except Exception as e:  # noqa: BLE001
+        ch.errors.append(f"driver: {e}")
+        return
+    for x, mo in zip(xs, model):
+        ch.evaluations += 1
+        ch.count("form=raw-double")
+        bits = double_bits(x)
+        text, fails = run_rawfloat(bits)
+        if (Fraction(x) * 1000000).denominator != 1:
+            keys.add(("raw", bits))
+        if fails:
+            ch.oracle_failures.append({"kind": "isodur-raw", "input": {"bits": bits, "value": repr(x)},
+                                       "what": fails, "text": text})
+        if mo.split(" ")[0] != text:
+            ch.disagreements.append({"kind": "isodur-raw", "input": {"bits": bits, "value": repr(x)},
+                                     "model": mo, "impl": text})
+
+
 def channel_isodur(ctx):
     ch = Channel("isodur", rule=(
         "durations whole + micros/10^6 s given as float / str / timedelta to toIsoDuration (directly, via the "
         "isoDuration filter, via objects.flatten / as_python): text must be in the model's admissible set "
         "(isodur), equal the Float re-implementation bit for bit (isodurf, which must also satisfy `Admissible`), "
         "and parse back identically in model and code (isoparse); oracle = independent xs:duration reader. "
+        "Also int arguments and unusual spellings of str arguments (trimmed zeros, sign/zeros/blanks, exponent), "
+        "arbitrary doubles (1/3, 0.1+0.2, neighbours of rounding half-way points, 5e-324 .. 2^32; value = the "
+        "double itself, isodurf bit for bit), and the first 3000 cases re-issued in reverse order at the end. "
         "Representative whole parts x edge fractions, then seeded: 15 % exact ties, 15 % carry region, "
         "log-uniform magnitudes up to 100 years; thorough adds every one of the 10^6 microsecond fractions for "
         f"whole parts {EXHAUSTIVE_WHOLES}. non-trivial = the fraction is not a whole millisecond or carries; "
@@ -378,7 +484,12 @@ def channel_isodur(ctx):
     if impl()[3] is None:
         ch.count("template_tags not importable: filter route falls back to utils")
     rng = ctx.rng("isodur")
-    eval_isodur(gen_isodur(rng, ctx.scale(20000, 100000)), ch, ks)
+    cases = gen_isodur(rng, ctx.scale(20000, 100000))
+    eval_isodur(cases, ch, ks)
+    eval_rawfloat(rng, ctx.scale(3000, 30000), ch, ks)
+    # the same calls again, later and in reverse order: the answer may not depend on what came before
+    eval_isodur(list(reversed(cases[:3000])), ch, ks, sample=False)
+    ch.count("re-issued-in-reverse-order", 3000)
     if ctx.thorough:
         forms = ("float", "str", "timedelta")
         for row, whole in enumerate(EXHAUSTIVE_WHOLES):
@@ -512,6 +623,24 @@ FIXED_TEXTS = [
 ]
 
 
+FIXED_TEXTS += [
+    # zone spellings
+    "2023-07-25T12:34:56-03:30", "2023-07-25T12:34:56-00:30", "2023-07-25T12:34:56+12:45", "2023-07-25T12:34:56+14:00",
+    "2023-07-25T12:34:56-14:00", "2023-07-25T12:34:56+15:00", "2023-07-25T12:34:56-23:59", "2023-07-25T12:34:56+24:00",
+    "2023-07-25T12:34:56-00:00", "2023-07-25T12:34:56+0:0", "2023-07-25T12:34:56+00:60", "2023-07-25T12:34:56 05:30",
+    "2023-07-25T12:34:56%2B05:30", "2023-07-25T12:34:56.25-03:30", "2023-07-25T12:34:56.499999+12:45",
+    # text that looks like something else
+    "0x1F", "true", "null", "None", "none", "now", "epoch", "{0}", "{start}", "%50T5S", "P%54", "&nbsp;", "&#0;", "PT5S&", "PT5S;",
+    "PT1=2S", "P T5S", "PT 5S", "PT5 S", "PT+5S", "PT-5S", "-PT5S", "PT5e0S", "PT0x5S", "PT5_0S", "PT5,5S", "PT1H2M3S4",
+    "1T", "T1", "P1T", "PT1T", "2023-07-25T12:34:56ZPT5S", "PT5S2023-07-25T12:34:56Z", "\n", "P\n", "PT\n", "PT5S\r\n", "\x00PT5S",
+    # sizes: 1 KB, 4096 +- 1, 64 KB of digits / fraction digits / junk
+    "PT" + "0" * 1024 + "5S", "PT5." + "1" * 1024 + "S", "PT" + "9" * 4095 + "S", "PT" + "9" * 4096 + "S", "PT" + "9" * 4097 + "S",
+    "P" + "1" * 4301 + "Y", "PT0." + "0" * 65536 + "1S", "PT" + ":" * 1024, "P" + "T" * 4097,
+    "2023-07-25T12:34:56." + "1" * 4097 + "Z", "2023-07-25T12:34:56." + "9" * 65536, "0" * 4096 + "2023-07-25T12:34:56Z",
+    "2023-07-25T12:34:56+" + "0" * 4097 + ":00", "9" * 4301 + "-07-25T12:34:56Z",
+]
+
+
 def gen_texts(rng, n):
     out = list(FIXED_TEXTS)
     while len(out) < n:
@@ -527,6 +656,12 @@ def gen_texts(rng, n):
         else:
             out.append("".join(rng.choice(ALPHABET) for _ in range(rng.randrange(0, 12))))
     return out
+
+
+def model_dur(mo: str) -> int:
+    """microseconds of a model answer `dur <n>` (very long numerals only need their magnitude)"""
+    d = mo.split(" ")[1]
+    return int(d) if len(d) <= 60 else 10 ** 60
 
 
 def channel_isoparse(ctx):
@@ -554,14 +689,14 @@ def channel_isoparse(ctx):
             continue
         if kind == "dur" and "." in t:
             # the parser adds the seconds as a double: exact only inside the assumed domain
-            us = int(mo.split(" ")[1])
+            us = model_dur(mo)
             frac = t.split(".", 1)[1].rstrip("S\n")
             digits = len(frac)
-            half = digits > 6 and frac[6:].isdigit() and int(frac[6:]) * 2 == 10 ** (digits - 6)
+            half = digits > 6 and frac[6] == "5" and set(frac[7:]) <= {"0"}
             if us >= TWO32 * 1000000 or (digits > 6 and us >= 2 ** 20 * 1000000) or half:
                 ch.count("fraction-on-a-value-beyond-double-resolution-not-compared")
                 continue
-        if kind == "dur" and int(mo.split(" ")[1]) >= 10 ** 9 * 86400 * 1000000:
+        if kind == "dur" and model_dur(mo) >= 10 ** 9 * 86400 * 1000000:
             ch.count("beyond-timedelta-range-not-compared")     # OverflowError of timedelta: not modelled
             continue
         if kind in ("dur", "dt", "err"):
@@ -662,6 +797,13 @@ def run_isodt(case):
     except Exception as e:  # noqa: BLE001
         return d, None, (None, exc_kind(e)), [f"to_iso_datetime raised {type(e).__name__}: {e}"]
     back = parse_real(text) if isinstance(text, str) else (None, "err")
+    try:
+        # read-only calls between the checked operations: they may not change what follows
+        for x in (d, back[0]):
+            if isinstance(x, datetime.datetime) and x.tzinfo is not None:
+                repr(x.tzinfo), str(x), x.tzname(), x.dst(), x.tzinfo.utcoffset(None)
+    except Exception:  # noqa: BLE001 (a zone the standard library refuses is judged by the oracle below)
+        pass
     return d, text, back, oracle_isodt(d, text, back)
 
 
@@ -695,8 +837,38 @@ OFFSETS = [None, 0, 0, 1, -1, 59, -59, 60, -60, 330, -330, 345, 570, -570, 600, 
 US_DT = [0, 1, 9, 10, 99, 100, 999, 1000, 123456, 500000, 541000, 100000, 999999, 999990, 900000, 3, 7, 29]
 
 
-def gen_isodt(rng, n):
+# calendar edges: first / last second of a day, month, year; Feb 28/29 -> Mar 1 in leap and non-leap years;
+# far past and far future (NTP era 2036-02-07, 2038-01-19, tkhd 2040-02-06)
+GRID_MOMENTS = [
+    (1, 1, 1, 0, 0, 0), (100, 1, 1, 0, 0, 0), (999, 12, 31, 23, 59, 59), (1479, 6, 15, 12, 0, 0),
+    (1900, 2, 28, 23, 59, 59), (1900, 3, 1, 0, 0, 0), (1969, 12, 31, 23, 59, 59), (1970, 1, 1, 0, 0, 0),
+    (1999, 12, 31, 23, 59, 59), (2000, 1, 1, 0, 0, 0), (2000, 2, 29, 23, 59, 59), (2000, 3, 1, 0, 0, 0),
+    (2023, 2, 28, 23, 59, 59), (2023, 3, 1, 0, 0, 0), (2023, 4, 30, 23, 59, 59), (2023, 5, 1, 0, 0, 0),
+    (2023, 7, 25, 12, 34, 56), (2023, 7, 25, 12, 34, 0), (2023, 7, 25, 12, 0, 0), (2023, 7, 25, 0, 0, 0),
+    (2024, 2, 28, 23, 59, 59), (2024, 2, 29, 0, 0, 0), (2024, 2, 29, 23, 59, 59), (2024, 3, 1, 0, 0, 0),
+    (2024, 12, 31, 23, 59, 59), (2025, 1, 1, 0, 0, 0), (2036, 2, 7, 6, 28, 15), (2036, 2, 7, 6, 28, 16),
+    (2038, 1, 19, 3, 14, 7), (2038, 1, 19, 3, 14, 8), (2040, 2, 6, 6, 28, 15), (2100, 2, 28, 23, 59, 59),
+    (2100, 3, 1, 0, 0, 0), (9999, 12, 31, 23, 59, 59),
+]
+GRID_PHASES = [0, 1, 250000, 499999, 500000, 750000, 999999, 100000, 10, 999990]
+# naive, UTC, and legal but unusual offsets (-03:30, -00:30, +12:45, +-14:00 and beyond, +-23:59, +-1 min)
+GRID_OFFSETS = [None, 0, -210, -30, 765, 840, -840, 900, 1439, -1439, 1, -1, 330, -300]
+
+
+def grid_isodt():
     out = []
+    i = 0
+    for m in GRID_MOMENTS:
+        for us in GRID_PHASES:
+            for off in GRID_OFFSETS:
+                tzkind = "naive" if off is None else ("utc", "fixed", "std")[i % 3]
+                out.append((*m, us, off, tzkind, DT_ROUTES[i % 4]))
+                i += 1
+    return out
+
+
+def gen_isodt(rng, n):
+    out = grid_isodt()
     while len(out) < n:
         y = rng.choice([1, 2, 999, 1000, 1900, 1970, 2000, 2023, 2024, 2038, 9999]) if rng.random() < .4 \
             else rng.randrange(1, 10000)
@@ -752,6 +924,10 @@ def eval_isodt(cases, ch: Channel, keys, sample=True):
 
 def channel_isodt(ctx):
     ch = Channel("isodt", rule=(
+        "fixed grid of calendar edges (first/last second of day, month, year; Feb 28/29 -> Mar 1 in leap and "
+        "non-leap years; years 1, 100, 1479, 1900, 1970, 2036-02-07, 2038-01-19, 2040-02-06, 2100, 9999) x "
+        "sub-second phases .0 .000001 .25 .499999 .5 .75 .999999 x offsets naive, Z, -03:30, -00:30, +12:45, "
+        "+-14:00, +15:00, +-23:59, +-00:01 (4760 cases, re-issued in reverse order at the end), then seeded "
         "valid date-times (years 1..9999, month ends, leap days, all field extremes) with microseconds and offsets "
         "naive / 0 / +-1 min .. +-23:59 built with dashlive's UTC and FixedOffsetTimeZone and datetime.timezone, "
         "rendered by to_iso_datetime (directly, isoDateTime filter, objects.flatten / as_python): text and instant "
@@ -763,7 +939,11 @@ def channel_isodt(ctx):
     ks = KeySet(len(grids) if ctx.thorough else 0)
     ch.nontrivial = ks
     rng = ctx.rng("isodt")
-    eval_isodt(gen_isodt(rng, ctx.scale(20000, 100000)), ch, ks)
+    cases = gen_isodt(rng, ctx.scale(20000, 100000))
+    eval_isodt(cases, ch, ks)
+    # the calendar grid again, later and in reverse order (the answer may not depend on earlier calls)
+    eval_isodt(list(reversed(cases[:2000])), ch, ks, sample=False)
+    ch.count("re-issued-in-reverse-order", 2000)
     if ctx.thorough:
         for row, g in enumerate(grids):
             for lo in range(0, 1000000, 250000):
@@ -779,8 +959,13 @@ def channel_isodt(ctx):
 
 # ------------------------------------------------------------------ tick conversions
 
-TIMESCALES = [1, 2, 3, 24, 25, 30, 48, 50, 60, 90, 600, 1000, 1001, 12800, 22050, 24000, 30000, 44100, 48000,
-              90000, 240000, 600000, 999999, 1000000, 1000001, 2000000, 3000000, 9999999, 10000000]
+TIMESCALES = [1, 2, 3, 24, 25, 30, 48, 50, 60, 90, 200, 240, 600, 1000, 1001, 12800, 22050, 24000, 30000, 44100,
+              48000, 60000, 90000, 240000, 600000, 999999, 1000000, 1000001, 2000000, 3000000, 9999999, 10000000]
+# timedelta values at the carries of its (days, seconds, microseconds) representation and the usual limits
+TD_POOL = [0, 1, -1, 999999, 1000000, 1000001, -999999, -1000000, -1000001, 86399999999, 86400000000, 86400000001,
+           -86399999999, -86400000000, -86400000001, 2 ** 31 - 1, 2 ** 31, 2 ** 31 + 1, 2 ** 32 - 1, 2 ** 32,
+           2 ** 32 + 1, 2 ** 33, 2 ** 31 * 1000000 - 1, 2 ** 31 * 1000000, 2 ** 31 * 1000000 + 1, 2 ** 53 - 1, 2 ** 53,
+           2 ** 53 + 1, 499, 500, 501, 41, 3, 86400 * 10 ** 6 * 10 ** 6 - 1]
 H_TS = 1000000   # hypothesis of tc_roundtrip_partial
 
 
@@ -873,6 +1058,10 @@ def gen_ticks(rng, n):
         for tc in (DAY_LIMIT - 1, DAY_LIMIT, DAY_LIMIT + 1, 86400 * 2 ** 31 - 1, 86400 * 2 ** 31, 2 ** 53 + 1,
                    2 ** 63 - 1, 2 ** 63, 2 ** 64 + 1):
             out.append((tc, ts, 1))
+        for e in (31, 32, 33, 53):                 # 2^31, 2^32, 2^33 (PTS wrap), 2^53 +- 1, 2^63 - 1
+            for dlt in (-1, 0, 1):
+                out.append((2 ** e + dlt, ts, 1))
+        out.append((2 ** 63 - 1, ts, 1))
         # rounding boundaries of tc*10^6/ts
         for r in (0, 1, ts // 2 - 1, ts // 2, ts // 2 + 1, ts - 1):
             out.append((residue_timecode(ts, max(0, r), 7), ts, 1))
@@ -938,6 +1127,7 @@ def channel_tcconv(ctx):
         us = tc * 1000000 // ts + rng.choice([0, 0, 1, -1, rng.randrange(0, 1000000)])
         if abs(us) < 86400 * 10 ** 6 * 10 ** 6:
             tds.append((us, ts, step, rng.choice([1, 1, 2, 3, 1001, ts])))
+    tds = [(us, ts, 1, (1, 2, ts)[i % 3]) for ts in TIMESCALES for i, us in enumerate(TD_POOL)] + tds
     lines = [f"tcconv {tc} {ts}" for tc, ts, _ in cases] + [f"tdconv {us} {ts}" for us, ts, _, _ in tds]
     try:
         model = common.run_driver(lines)
@@ -983,17 +1173,46 @@ def channel_tcconv(ctx):
 
 # ------------------------------------------------------------------ check.py interface
 
+def module_state() -> dict:
+    """module- and class-level objects of date_time.py / timezone.py that a call could mutate"""
+    dt, tz, _, _ = impl()
+    out = {}
+    for mod in (dt, tz):
+        for name, v in vars(mod).items():
+            if name.startswith("__") or callable(v) and not isinstance(v, type) or isinstance(v, type(datetime)):
+                continue
+            if isinstance(v, type):
+                if v.__module__ == mod.__name__:
+                    for a, av in vars(v).items():
+                        if not a.startswith("__") and not callable(av):
+                            out[f"{mod.__name__}.{name}.{a}"] = repr(av)
+            else:
+                out[f"{mod.__name__}.{name}"] = repr(v)
+    return out
+
+
 def channels(ctx):
-    yield channel_isodur(ctx)
-    yield channel_isoparse(ctx)
-    yield channel_isodt(ctx)
-    yield channel_tcconv(ctx)
+    before = module_state()
+    for make in (channel_isodur, channel_isoparse, channel_isodt, channel_tcconv):
+        ch = make(ctx)
+        after = module_state()
+        if after != before:
+            changed = sorted(k for k in set(before) | set(after) if before.get(k) != after.get(k))
+            # not a violation by itself: reported next to its first visible consequence
+            ch.count("module-level state changed during the channel: " + ", ".join(changed[:5]))
+            for x in ch.oracle_failures[:20] + ch.disagreements[:20]:
+                x["module_state_changed"] = {k: [before.get(k), after.get(k)] for k in changed[:5]}
+            before = after
+        ch.count("module-level objects snapshotted", len(after))
+        yield ch
 
 
 def eval_failure_input(kind: str, j: dict, restrict: bool = True):
     """re-run the oracle on a recorded input; returns the list of failed clauses"""
     if kind in ("isodur", "isodurf", "isodurf-front-end-spec"):
         return run_isodur((j["whole"], j["micros"], j.get("form", "float"), j.get("route", "utils")))[2]
+    if kind == "isodur-raw":
+        return run_rawfloat(j["bits"])[1]
     if kind == "isodt":
         return run_isodt(isodt_case(j))[3]
     if kind == "tcconv":
